@@ -579,3 +579,60 @@ def check_optimize_history(case):
         if frac:
             out.append(fail('C03.bools.flagged_variables_integral', 'optimization:OptimProblem.optimize', case, dict(case), f'boolean variables fractional in the solution: {frac[:5]}'))
     return out
+
+
+# ------------------------------------------------------------------------------------------------ C02 / C08 take periods
+def check_take(case):
+    """C02.take / C08: for each take period with covered steps K (inside horizon and asset window): no row if K is empty,
+    else one row  sum_{k in K} x_k  <=|>=  v * (sum_{k in K} dt_k) / (period length)  -- prorated by the covered duration"""
+    from pyvc import native as N
+    eao = eao_mod()
+    out = []
+    rng = random.Random(case['seed'])
+    T = case['T']
+    dt = [rng.choice(N.POS) for _ in range(T)] if case['nonuniform'] else None
+    tg, _ = N.synthetic_grid(T, dt)
+    pts = list(tg.timepoints) + [tg.end]
+    a0 = case['asset_start']
+    node = eao.assets.Node('n')
+    periods = []
+    for _ in range(case['n_periods']):
+        s_i = rng.randint(-2, T)
+        e_i = rng.randint(max(s_i + 1, 0), T + 2)
+        one = pd.Timedelta(1, 'h')
+        s_t = pts[max(s_i, 0)] + (s_i * one if s_i < 0 else 0 * one)
+        e_t = pts[min(e_i, T)] + ((e_i - T) * one if e_i > T else 0 * one)
+        periods.append((s_t, e_t, rng.choice([-6., -2., 3.])))
+    take = {'start': [p[0] for p in periods], 'end': [p[1] for p in periods], 'values': [p[2] for p in periods]}
+    kind = case['kind']
+    kw = dict(min_take=take) if kind == 'min' else dict(max_take=take)
+    c = eao.assets.Contract(name='c', nodes=node, price='p', min_cap=-5., max_cap=5., extra_costs=case['ec'], start=pts[a0], **kw)
+    op = c.setup_optim_problem({'p': np.ones(T)}, tg)
+    n = T - a0
+    nv = len(op.c)
+    rows = op.A.toarray() if op.A is not None else np.zeros((0, nv))
+    want_rows, want_b = [], []
+    for (s_t, e_t, v) in periods:
+        K = [k for k in range(a0, T) if s_t <= pts[k] < e_t]
+        if not K:
+            continue
+        r = np.zeros(nv)
+        for k in K:
+            r[k - a0] += 1.
+            if nv == 2 * n:
+                r[n + k - a0] += 1.
+        covered = float(sum(tg.dt[k] for k in K))
+        length = (e_t - s_t) / pd.Timedelta(1, 'h')
+        want_rows.append(r)
+        want_b.append(v * covered / length)
+    params = dict(case)
+    if rows.shape[0] != len(want_rows):
+        out.append(fail('C08.take.omit_iff_no_covered_step', 'assets:define_restr', case, params, f'{rows.shape[0]} rows, expected {len(want_rows)}'))
+        return out
+    if len(want_rows) and not np.allclose(rows, np.array(want_rows)):
+        out.append(fail('C02.take.row_sums_dispatch_of_covered_steps', 'assets:define_restr', case, params, 'row coefficients differ'))
+    if len(want_b) and not np.allclose(op.b, want_b, rtol=1e-9):
+        out.append(fail('C08.take.prorated_by_covered_duration', 'assets:define_restr', case, params, f'rhs {np.round(op.b, 6).tolist()} expected {np.round(want_b, 6).tolist()}'))
+    if op.cType != ('L' if kind == 'min' else 'U') * len(want_rows):
+        out.append(fail('C02.take.row_type', 'assets:define_restr', case, params, op.cType))
+    return out
